@@ -120,6 +120,12 @@ J('A.strispassword_s', ['C02', 'C10', 'C05', 'C01'], 'A', 'contracts/extstr/stri
   enforce='_strispassword_s_chk', functions=['_strispassword_s_chk'], sliced=False, timeout=600,
   note='exact-fit object of symbolic size (up to 4 x the password limit), dmax any 64-bit value, object size known or unknown; the only job that reaches the scan loop (B.q.strispassword_s cannot: dmax >= 6 is demanded, its operands have <= 5 elements)')
 
+J('C.strerror_s', ['C05'], 'C', 'contracts/str_strerror_s.spec.c',
+  sources=['src/str/strerror_s.c'], enforce='_strerror_s_chk', functions=['_strerror_s_chk', 'strerrorlen_s'], timeout=300,
+  note='loop-free wrapper, full domain, real strerrorlen_s and message tables; strerror/strlen assumed, _strcpy_s_chk/_strncpy_s_chk/_strcat_s_chk replaced by the contracts proved in A.strcpy_s/A.strncpy_s/A.strcat_s (restated for a valid destination; their requires sides are the C05 obligations at the call sites)',
+  assumptions=['strerror returns a NUL-terminated message in an object of its own, never NULL (glibc); strlen returns its length',
+               'the restated _strcpy_s_chk/_strncpy_s_chk/_strcat_s_chk contracts (valid destination => terminated result, EOK, no handler) are what A.strcpy_s.arena / A.strncpy_s.arena / A.strcat_s.arena prove for the real functions; correspondence by inspection'])
+
 for fn, nm in ((1, 'timingsafe_bcmp'), (2, 'timingsafe_memcmp')):
     src = 'src/extmem/%s.c' % nm
     J('A.%s' % nm, ['C19', 'C02', 'C05', 'C01'], 'A', 'contracts/extmem/timingsafe.spec.c',
